@@ -10,6 +10,7 @@ From AV Require Import UF.TrUfCore.
 From AV Require Import UF.TrUfGraph.
 From AV Require Import UF.TrUfNode.
 From AV Require Import UF.TrUfStep.
+From AV Require Import UF.TrUfMerge.
 Import ListNotations.
 
 (* ---- the two inner loops of merge_multiple as folds *)
@@ -673,11 +674,11 @@ Section Collapse.
        (s = xs /\ (mem_of st xs u \/ exists z, In z l /\ mem_of st z u)) \/
        (s <> xs /\ ~ In s l /\ mem_of st s u).
     Hypothesis Hdt6 : forall t d, dom_to st t d -> dom_to st6 t (if existsb (Nat.eqb d) l then xs else d).
-    Let F := final st6.
+    Let Fn := final st6.
 
-    Lemma domF : forall d, dominant F d <-> D' d.
+    Lemma domF : forall d, dominant Fn d <-> D' d.
     Proof.
-      intros d. change (dominant F d) with (dominant st6 d). rewrite Hd6, in_l. unfold D'. tauto.
+      intros d. change (dominant Fn d) with (dominant st6 d). rewrite Hd6, in_l. unfold D'. tauto.
     Qed.
     Lemma xs_notl : ~ In xs l.
     Proof. rewrite in_l. intros [H|H]; [apply xs_notM; exact H|congruence]. Qed.
@@ -689,19 +690,19 @@ Section Collapse.
     Lemma eget6r : forall a, eget a (t_rev st6) = if existsb (Nat.eqb a) l then [] else eget a r8.
     Proof. intros a. unfold eget. rewrite Hr6. destruct (existsb (Nat.eqb a) l); reflexivity. Qed.
 
-    Lemma cnF_iff : forall a b, cn F a b <->
+    Lemma cnF_iff : forall a b, cn Fn a b <->
       (a = xs /\ has c8 xs b /\ b <> ys /\ ~ In b M') \/ (a <> xs /\ ~ In a l /\ has c8 a b).
     Proof.
-      intros a b. unfold cn, F, final; cbn [t_conn]. rewrite has_aset, in_sdiff, in_srem, !eget6c.
+      intros a b. unfold cn, Fn, final; cbn [t_conn]. rewrite has_aset, in_sdiff, in_srem, !eget6c.
       pose proof xs_notl as Hx. destruct (existsb (Nat.eqb xs) l) eqn:Ex; [apply lk in Ex; contradiction|].
       destruct (existsb (Nat.eqb a) l) eqn:Ea.
       - apply lk in Ea. cbn. intuition congruence.
       - assert (~ In a l) by (intros Hi; apply lk in Hi; congruence). intuition congruence.
     Qed.
-    Lemma rvF_iff : forall a b, rv F a b <->
+    Lemma rvF_iff : forall a b, rv Fn a b <->
       (a = xs /\ has r8 xs b /\ b <> ys /\ ~ In b M') \/ (a <> xs /\ ~ In a l /\ has r8 a b).
     Proof.
-      intros a b. unfold rv, F, final; cbn [t_rev]. rewrite has_aset, in_sdiff, in_srem, !eget6r.
+      intros a b. unfold rv, Fn, final; cbn [t_rev]. rewrite has_aset, in_sdiff, in_srem, !eget6r.
       pose proof xs_notl as Hx. destruct (existsb (Nat.eqb xs) l) eqn:Ex; [apply lk in Ex; contradiction|].
       destruct (existsb (Nat.eqb a) l) eqn:Ea.
       - apply lk in Ea. cbn. intuition congruence.
@@ -711,7 +712,7 @@ Section Collapse.
     Lemma key_V : forall (m : mset) a b, mgood V m -> has m a b -> V a.
     Proof. intros m a b G H. apply (mrange_has V m a b); [apply G|exact H]. Qed.
 
-    Lemma cnF_D' : forall a b, cn F a b -> D' a /\ D' b.
+    Lemma cnF_D' : forall a b, cn Fn a b -> D' a /\ D' b.
     Proof.
       intros a b H. apply cnF_iff in H. destruct H as [[-> [H _]]|[Hax [Hal H]]].
       - split; [exact D'xs|apply (Cf_range xs b D'xs H)].
@@ -719,7 +720,7 @@ Section Collapse.
         { rewrite in_l in Hal. split; [apply (key_V c8 a b good_c8 H)|]. split; tauto. }
         split; [exact Da|apply (Cf_range a b Da H)].
     Qed.
-    Lemma rvF_D' : forall a b, rv F a b -> D' a /\ D' b.
+    Lemma rvF_D' : forall a b, rv Fn a b -> D' a /\ D' b.
     Proof.
       intros a b H. apply rvF_iff in H. destruct H as [[-> [H [H1 H2]]]|[Hax [Hal H]]].
       - split; [exact D'xs|apply (Rf_range xs b D'xs H); intros _; split; assumption].
@@ -728,7 +729,7 @@ Section Collapse.
         split; [exact Da|apply (Rf_range a b Da H); intros ->; congruence].
     Qed.
 
-    Lemma cnF_rel : forall a b, a <> b -> (cn F a b <-> D' a /\ D' b /\ rel a b).
+    Lemma cnF_rel : forall a b, a <> b -> (cn Fn a b <-> D' a /\ D' b /\ rel a b).
     Proof.
       intros a b Hab. split.
       - intros H. destruct (cnF_D' a b H) as [Da Db]. split; [exact Da|]. split; [exact Db|].
@@ -738,7 +739,7 @@ Section Collapse.
         destruct (Nat.eq_dec a xs) as [->|Hax]; [left; auto|right]. split; [exact Hax|]. split; [|exact H].
         rewrite in_l. tauto.
     Qed.
-    Lemma rvF_rel : forall a b, a <> b -> (rv F b a <-> D' a /\ D' b /\ rel a b).
+    Lemma rvF_rel : forall a b, a <> b -> (rv Fn b a <-> D' a /\ D' b /\ rel a b).
     Proof.
       intros a b Hab. assert (Hba : b <> a) by congruence. split.
       - intros H. destruct (rvF_D' b a H) as [Db Da]. split; [exact Da|]. split; [exact Db|].
@@ -747,6 +748,139 @@ Section Collapse.
         pose proof Db as [_ [Mb Hby]]. pose proof Da as [_ [Ma Hay]].
         destruct (Nat.eq_dec b xs) as [->|Hbx]; [left; auto|right]. split; [exact Hbx|]. split; [|exact H].
         rewrite in_l. tauto.
+    Qed.
+
+    (* ---- meaning of the final state *)
+    Lemma mem_dominant : forall a u, mem_of st a u -> dominant st a.
+    Proof.
+      intros a u H. split; [apply (mem_of_lt st a u H)|].
+      destruct (aget a (t_subs st)) eqn:Ea; [|reflexivity].
+      pose proof (c_subsumed_empty E' st Hc a n Ea) as He. destruct H as [la [Hl Hi]].
+      rewrite He in Hl. inversion Hl; subst. destruct Hi.
+    Qed.
+
+    Lemma oldc : forall a u, mem_of st6 a u -> exists a0, mem_of st a0 u /\ dominant st a0 /\
+      ((a0 = a /\ a <> xs /\ ~ In a l) \/ (a = xs /\ (a0 = xs \/ In a0 l))).
+    Proof.
+      intros a u H. apply Hm6 in H. destruct H as [[-> [H|[z [Hz H]]]]|[Hax [Hal H]]].
+      - exists xs. split; [exact H|]. split; [exact Hdx|]. right; auto.
+      - exists z. split; [exact H|]. split; [apply (mem_dominant z u H)|]. right; auto.
+      - exists a. split; [exact H|]. split; [apply (mem_dominant a u H)|]. left; auto.
+    Qed.
+
+    Lemma l_cases : forall z, In z l -> (z = ys \/ In z M').
+    Proof. intros z H. apply in_l in H. tauto. Qed.
+
+    Lemma merged_equiv : forall z u, (z = xs \/ In z l) -> mem_of st z u -> rtc E' u x /\ rtc E' x u.
+    Proof.
+      intros z u Hz Hu.
+      assert (Hxy : rtc E' x y) by (apply rtc_e; unfold E'; apply in_app_iff; right; now left).
+      destruct Hz as [->|Hz].
+      - split; apply (c_class E' st Hc xs); assumption.
+      - destruct (l_cases z Hz) as [->|Mz].
+        + assert (Huy : rtc E' u y) by (apply (c_class E' st Hc ys); assumption).
+          assert (Hyu : rtc E' y u) by (apply (c_class E' st Hc ys); assumption).
+          split; [|eapply rtc_t; eassumption].
+          eapply rtc_t; [exact Huy|]. apply (c_conn_sound E' st Hc ys xs y x Hback Hmy Hmx).
+        + apply in_M' in Mz. destruct Mz as [M1 [M2 _]]. split.
+          * apply (c_conn_sound E' st Hc z xs u x M2 Hu Hmx).
+          * eapply rtc_t; [exact Hxy|]. apply (c_conn_sound E' st Hc ys z y u M1 Hmy Hu).
+    Qed.
+
+    (* every member of a final class is equivalent to a member of the old class with the same id *)
+    Lemma rep : forall a u, D' a -> mem_of st6 a u -> exists u0, mem_of st a u0 /\ rtc E' u u0 /\ rtc E' u0 u.
+    Proof.
+      intros a u Da H. destruct (oldc a u H) as [a0 [Hm0 [_ [[-> _]|[-> Hz]]]]].
+      - exists u. split; [exact Hm0|]. split; apply (c_class E' st Hc a); assumption.
+      - exists x. split; [exact Hmx|]. apply (merged_equiv a0 u Hz Hm0).
+    Qed.
+
+    Lemma class_sound : forall s u v, mem_of st6 s u -> mem_of st6 s v -> rtc E' u v.
+    Proof.
+      intros s u v Hu Hv. destruct (oldc s u Hu) as [a0 [Hm0 [_ [[-> [Hsx Hsl]]|[-> Hz]]]]].
+      - apply Hm6 in Hv. destruct Hv as [[F _]|[_ [_ Hv]]]; [congruence|]. apply (c_class E' st Hc s); assumption.
+      - destruct (oldc xs v Hv) as [b0 [Hmb [_ [[_ [F _]]|[_ Hzb]]]]]; [congruence|].
+        destruct (merged_equiv a0 u Hz Hm0) as [H1 _]. destruct (merged_equiv b0 v Hzb Hmb) as [_ H2].
+        eapply rtc_t; eassumption.
+    Qed.
+
+    Lemma rel_sound : forall a b u0 v0, rel a b -> mem_of st a u0 -> mem_of st b v0 -> rtc E' u0 v0.
+    Proof.
+      intros a b u0 v0 [H|[Ia Ob]] Hu Hv; [apply (c_conn_sound E' st Hc a b); assumption|].
+      assert (Hxy : rtc E' x y) by (apply rtc_e; unfold E'; apply in_app_iff; right; now left).
+      assert (H1 : rtc E' u0 x).
+      { destruct Ia as [->|Ia]; [apply (c_class E' st Hc xs); assumption|apply (c_conn_sound E' st Hc a xs); assumption]. }
+      assert (H2 : rtc E' y v0).
+      { destruct Ob as [->|Ob]; [apply (c_conn_sound E' st Hc ys xs); assumption|apply (c_conn_sound E' st Hc ys b); assumption]. }
+      eapply rtc_t; [exact H1|]. eapply rtc_t; eassumption.
+    Qed.
+
+    Lemma conn_sound : forall a b u v, cn Fn a b -> mem_of st6 a u -> mem_of st6 b v -> rtc E' u v.
+    Proof.
+      intros a b u v H Hu Hv. destruct (Nat.eq_dec a b) as [->|Hab]; [apply (class_sound b); assumption|].
+      apply (cnF_rel a b Hab) in H. destruct H as [Da [Db Hr]].
+      destruct (rep a u Da Hu) as [u0 [Hu0 [H1 _]]]. destruct (rep b v Db Hv) as [v0 [Hv0 [_ H2]]].
+      eapply rtc_t; [exact H1|]. eapply rtc_t; [|exact H2]. apply (rel_sound a b); assumption.
+    Qed.
+
+    (* completeness *)
+    Lemma proj_in : forall a a0 u, D' a -> mem_of st a0 u -> dominant st a0 ->
+      ((a0 = a /\ a <> xs /\ ~ In a l) \/ (a = xs /\ (a0 = xs \/ In a0 l))) ->
+      (a0 = xs \/ cn st a0 xs) -> ina a.
+    Proof.
+      intros a a0 u Da Hm Hd [[-> _]|[-> _]] H; [exact H|left; reflexivity].
+    Qed.
+
+    Lemma to_ina : forall a a0, ((a0 = a /\ a <> xs /\ ~ In a l) \/ (a = xs /\ (a0 = xs \/ In a0 l))) ->
+      (a0 = xs \/ cn st a0 xs) -> ina a.
+    Proof. intros a a0 [[-> _]|[-> _]] H; [exact H|left; reflexivity]. Qed.
+    Lemma to_outb : forall b b0, ((b0 = b /\ b <> xs /\ ~ In b l) \/ (b = xs /\ (b0 = xs \/ In b0 l))) ->
+      (b0 = ys \/ cn st ys b0) -> outb b.
+    Proof.
+      intros b b0 [[-> [_ Hbl]]|[-> _]] H; [|left; reflexivity].
+      destruct H as [->|H]; [exfalso; apply Hbl, in_l; auto|right; exact H].
+    Qed.
+
+    Lemma old_edge_rel : forall a b a0 b0, D' a -> D' b -> a <> b ->
+      ((a0 = a /\ a <> xs /\ ~ In a l) \/ (a = xs /\ (a0 = xs \/ In a0 l))) ->
+      ((b0 = b /\ b <> xs /\ ~ In b l) \/ (b = xs /\ (b0 = xs \/ In b0 l))) ->
+      cn st a0 b0 -> rel a b.
+    Proof.
+      intros a b a0 b0 Da Db Hab Ha Hb H.
+      pose proof Da as [_ [Ma Hay]]. pose proof Db as [_ [Mb Hby]].
+      destruct Ha as [[-> [Hax Hal]]|[-> Ha]]; destruct Hb as [[-> [Hbx Hbl]]|[-> Hb]].
+      - left; exact H.
+      - destruct Hb as [->|Hb]; [left; exact H|]. right. split; [|left; reflexivity].
+        destruct (l_cases b0 Hb) as [->|Mb0]; [apply ina_of_ys; assumption|].
+        apply in_M' in Mb0. right. apply (ctrans a b0 xs); tauto.
+      - destruct Ha as [->|Ha]; [left; exact H|]. right. split; [left; reflexivity|]. right.
+        destruct (l_cases a0 Ha) as [->|Ma0]; [exact H|].
+        apply in_M' in Ma0. apply (ctrans ys a0 b); [tauto|exact H|congruence].
+      - congruence.
+    Qed.
+
+    Lemma complete_Fn : forall a b u v, D' a -> D' b -> mem_of st6 a u -> mem_of st6 b v ->
+      rtc E' u v -> a = b \/ cn Fn a b.
+    Proof.
+      intros a b u v Da Db Hu Hv Hr.
+      destruct (Nat.eq_dec a b) as [Hab|Hab]; [left; exact Hab|right].
+      destruct (oldc a u Hu) as [a0 [Hma [Hda Ha]]]. destruct (oldc b v Hv) as [b0 [Hmb [Hdb Hb]]].
+      apply (cnF_rel a b Hab). split; [exact Da|]. split; [exact Db|].
+      apply rtc_snoc_inv in Hr. destruct Hr as [Hr|[[Hux Hyv]|[-> _]]].
+      - destruct (Hcm a0 b0 u v Hda Hdb Hma Hmb Hr) as [Heq|He].
+        + exfalso. apply Hab.
+          destruct Ha as [[Ha1 [Ha2 Ha3]]|[Ha1 Ha2]]; destruct Hb as [[Hb1 [Hb2 Hb3]]|[Hb1 Hb2]]; try congruence.
+          * exfalso. destruct Hb2 as [Hb2|Hb2]; [congruence|]. apply Ha3. congruence.
+          * exfalso. destruct Ha2 as [Ha2|Ha2]; [congruence|]. apply Hb3. congruence.
+        + apply (old_edge_rel a b a0 b0); assumption.
+      - right. split.
+        + apply (to_ina a a0 Ha). destruct Hux as [->|Hux].
+          * left. apply (cmem_disj E' st Hc a0 xs x); assumption.
+          * apply (Hcm a0 xs u x Hda Hdx Hma Hmx Hux).
+        + apply (to_outb b b0 Hb). destruct Hyv as [->|Hyv].
+          * left. apply (cmem_disj E' st Hc b0 ys y); assumption.
+          * destruct (Hcm ys b0 y v Hdy Hdb Hmy Hmb Hyv) as [<-|He]; [left; reflexivity|right; exact He].
+      - exfalso. apply Hab. apply (sinv_mem_disj st6 Hs6 a b v); assumption.
     Qed.
   End Final.
 End Collapse.
